@@ -277,7 +277,7 @@ func cmdCheck(args []string) int {
 		return fail("no obligations generated for " + *prop + " (vacuous check)")
 	}
 	tGen := time.Since(t0).Seconds() - tLoad
-	dischargeAll(obls, scratch, secs, 12)
+	dischargeAll(obls, scratch, secs, parallelism())
 	// retry unknowns once at 3x on quick tier
 	var retry []*Obligation
 	for _, o := range obls {
@@ -286,7 +286,7 @@ func cmdCheck(args []string) int {
 		}
 	}
 	if len(retry) > 0 && len(retry) <= 8 {
-		dischargeAll(retry, scratch, secs*3, 6)
+		dischargeAll(retry, scratch, secs*3, parallelism())
 	}
 	// verdicts
 	kf := loadKnown(*known)
@@ -421,6 +421,15 @@ func cmdCheck(args []string) int {
 		os.WriteFile(*evPath, data, 0o644)
 	}
 	return rc
+}
+
+// parallelism: number of obligations discharged at once (GOVC_PAR overrides; default 6 because the
+// sandbox is usually shared with other runs; ./check sets 12).
+func parallelism() int {
+	if v, err := strconv.Atoi(os.Getenv("GOVC_PAR")); err == nil && v > 0 {
+		return v
+	}
+	return 6
 }
 
 func truncate(s string, n int) string {
